@@ -682,6 +682,7 @@ def run_b(sch):
         if got and not want:
             raise Violation("%s ACCEPTED a triple that is not valid: %s" % (what, why or "the verification equation fails"),
                             kind="soundness", reason=why or "equation", mutation=labels[0], accepted=True,
+                            mutations=[l_ for l_ in labels if l_.startswith("mut:")],
                             errored=bool(c1.errored),
                             role=sch.role_of(why) if why else None, ctype=sch.role_of(why, 1) if why else None,
                             annihilated=bool(why and sch.annihilated(x, Tm, why.split(":")[0])))
@@ -2236,7 +2237,8 @@ def k_sig_g1_cofactor(case, v, e):
     d = _d(v)
     return (case.get("scheme") in ("mklhs", "cmlhs", "mpss", "mpsb") and d.get("kind") == "soundness"
             and d.get("accepted") and not d.get("errored") and d.get("role") == "sig" and d.get("ctype") == "g1"
-            and d.get("mutation") == "mut:sig:g1:cofactor" and (d.get("reason") or "").endswith(":outside-subgroup"))
+            and "mut:sig:g1:cofactor" in (d.get("mutations") or [d.get("mutation")])
+            and (d.get("reason") or "").endswith(":outside-subgroup"))
 
 
 def k_error_accept_b(case, v, e):
